@@ -324,3 +324,8 @@ Definition text_case (who : Z) (t : ty) (n : names) (v : value) (obs : bytes) : 
   let m := beq (if who =? 0 then py_str t n v else cpp_text t n v) obs in
   let s := beq (text_of t n v) obs in
   if a && w && f && m && s then [] else [96; b2z a; b2z w; b2z f; b2z m; b2z s] ++ text_of t n v.
+
+From Prophy Require Import PcValidate.
+
+(* legality (C12): the documented rules and the model of the front-end's checks on one schema *)
+Definition accept_flags (t : ty) : list Z := [b2z (legal t); b2z (pc_accepts t); 7].
